@@ -53,7 +53,9 @@ def run(tier):
     from .c07 import decide as list_decide, RuleView
     from .automata_common import load_core
     rep.rule('R02.7', 'the observation count the QueryResp announces is the length of the list it serialises (bookkeeping obligations R07.f/g/j)', floor=40)
-    list_decide(RuleView(rep, {r: 'R02.7' for r in ('R07.f', 'R07.g', 'R07.j')}), load_core('systemd'))
+    # ... and what a descriptor carries (type, real source, Ethernet source, Ethernet destination of the observed frame, in
+    # wire order) is part of the QueryResp's inner structure: the frame -> node -> wire mapping (R07.c)
+    list_decide(RuleView(rep, {r: 'R02.7' for r in ('R07.f', 'R07.g', 'R07.j', 'R07.c')}), load_core('systemd'))
     return finish(rep, 'proof',
                   'All send_frame effects of the complete dispatch matrix (ToS and opcode as full byte sets; every path incl. fault paths) are examined: cell, count, '
                   'header byte origins, per-opcode structure (Hello TLV chain parsed over symbolic offsets), initialisation of every byte below the length, length bound.',
